@@ -372,6 +372,53 @@ func c01(c *ctx) {
 			n++
 		}
 	}
+	// after a frame write that failed in the destination: frames written next - one of them from inside the
+	// destination's Write of the other (a tunnel), so that both are in flight at once - still come out as
+	// their own header followed by exactly their own payload
+	for _, sz := range []int{100, 130, 300, 1000, 4000, 5000} {
+		for _, failAt := range []int{1, 2} {
+			key := fmt.Sprintf("afterfail/%d/%d", sz, failAt)
+			if !vh.Only(key) {
+				continue
+			}
+			calls := 0
+			ws.WriteFrame(writerFunc(func(b []byte) (int, error) {
+				calls++
+				if calls >= failAt {
+					return 0, vh.ErrInjected
+				}
+				return len(b), nil
+			}), ws.NewBinaryFrame(vh.PBytes(1, 0, sz)))
+			var outerBuf, innerBuf bytes.Buffer
+			innerPay, outerPay := vh.PBytes(9, 0, sz+3), vh.PBytes(4, 0, sz)
+			tw := writerFunc(func(b []byte) (int, error) {
+				ws.WriteFrame(&innerBuf, ws.NewBinaryFrame(innerPay))
+				return outerBuf.Write(b)
+			})
+			err := ws.WriteFrame(tw, ws.NewTextFrame(outerPay))
+			of, orest := vh.ParseFrames(outerBuf.Bytes())
+			inf, irest := vh.ParseFrames(innerBuf.Bytes())
+			bad := ""
+			switch {
+			case err != nil:
+				bad = "outer write failed: " + err.Error()
+			case len(orest) != 0 || len(of) != 1 || of[0].Op != 1 || !of[0].Fin || !bytes.Equal(of[0].Raw, outerPay):
+				bad = fmt.Sprintf("outer frame is not its header + payload (%d frames, %d stray bytes, first bytes % x)", len(of), len(orest), outerBuf.Bytes()[:minInt(6, outerBuf.Len())])
+			case len(irest) != 0 || len(inf) == 0:
+				bad = "inner frames are not whole frames"
+			}
+			for _, f := range inf {
+				if bad == "" && (f.Op != 2 || !bytes.Equal(f.Raw, innerPay)) {
+					bad = "an inner frame is not its header + payload"
+				}
+			}
+			if bad != "" {
+				meta.Direct = append(meta.Direct, map[string]interface{}{"key": key, "what": "after a failed frame write: " + bad})
+			}
+			n++
+			shapes.Add("afterfail/%d", sz)
+		}
+	}
 	// the codec under concurrent use: goroutines encode and decode their own headers at the same time,
 	// through writers that yield before they copy (the encoder must not lend them shared scratch memory)
 	for _, procs := range []int{1, 4} {
